@@ -6,7 +6,9 @@ violation class (clause + signature class) recurs".  Pure function of the plan: 
 import copy
 
 
-def shrink(plan, still_fails, candidates, budget=300):
+def shrink(plan, still_fails, candidates, budget=300, time_budget_s=None):
+    import time
+    t0 = time.monotonic()
     tried = 0
     seen = set()
     import json
@@ -14,6 +16,8 @@ def shrink(plan, still_fails, candidates, budget=300):
     while improved and tried < budget:
         improved = False
         for cand in candidates(plan):
+            if time_budget_s is not None and time.monotonic() - t0 > time_budget_s:
+                return plan, tried
             key = json.dumps(cand, sort_keys=True, default=repr)
             if key in seen:
                 continue
